@@ -49,6 +49,10 @@ def build(lanes):
     """Return (f, lo, hi, r) for a list of lane dicts."""
     lo = np.array([ln['lo'] for ln in lanes], dtype=float)
     w = np.array([ln['w'] for ln in lanes], dtype=float)
+    # lanes far from the origin (timestamps, ids): the bracket keeps at least 1e4 representable points
+    far = np.array([ln.get('far') or 0.0 for ln in lanes], dtype=float)
+    lo = np.where(far > 0, lo + np.where(lo < 0, -1.0, 1.0) * 10.0 ** far, lo)
+    w = np.where(far > 0, np.maximum(w, 1e4 * np.spacing(np.abs(lo))), w)
     hi = lo + w
     frac = np.array([ln['frac'] for ln in lanes], dtype=float)
     r = np.clip(lo + frac * w, lo, hi)
@@ -90,6 +94,7 @@ def lane_strategy():
         'lo': lo,
         'w': st.one_of(st.floats(-6, 6).map(lambda e: min(10.0 ** e, 9.0e5)), st.sampled_from([1.0, 2.0, 8.0, 1024.0])),
         'frac': frac,
+        'far': st.one_of(st.none(), st.none(), st.none(), st.none(), st.none(), st.none(), st.floats(7.0, 12.0)),
     })
 
 
@@ -132,6 +137,8 @@ def classes_of(lanes):
         out.append('flat-root')
     if any(ln['kind'] == 'root5' for ln in lanes):
         out.append('infinite-slope')
+    if any(ln.get('far') for ln in lanes):
+        out.append('far-lane' if all(ln.get('far') for ln in lanes) else 'far-and-near-lanes')
     return out
 
 
@@ -159,7 +166,9 @@ def oracle_bisect(case):
 
     lanes = case['lanes']
     f, lo, hi, r = build(lanes)
-    tol = np.full(len(lanes), 1e-8)
+    # 1e-8 in x, or the floating-point resolution of the lane itself where that is coarser (a lane at 1e12 cannot be
+    # located to 1e-8); the resolution of *other* lanes in the batch must not matter
+    tol = np.maximum(1e-8, 2.0 * np.spacing(np.maximum(np.abs(lo), np.abs(hi))))
     x = value(bisect, f, lo.copy(), hi.copy(), what='bisect')
     ratio = check_solution('bisect', x, f, lo, hi, r, tol, '(batch)')
     # lane independence: the probe lane solved alone must also be within tolerance, and the batch
@@ -167,9 +176,9 @@ def oracle_bisect(case):
     j = case['probe'] % len(lanes)
     f1, lo1, hi1, r1 = build([lanes[j]])
     x1 = value(bisect, f1, lo1.copy(), hi1.copy(), what='bisect')
-    check_solution('bisect', x1, f1, lo1, hi1, r1, tol[:1], '(lane alone)')
+    check_solution('bisect', x1, f1, lo1, hi1, r1, tol[j:j + 1], '(lane alone)')
     if f1(x1)[0] != 0 and f(x)[j] != 0:
-        require(abs(x1[0] - x[j]) <= 2e-8, 'bisect: lane %d alone gives %r, in batch %r' % (j, x1[0], x[j]),
+        require(abs(x1[0] - x[j]) <= 2 * tol[j], 'bisect: lane %d alone gives %r, in batch %r' % (j, x1[0], x[j]),
                 tag='lane-independence')
     target(ratio, label='bisect err/tol')
     return {'nontrivial': nontrivial_batch(lanes), 'classes': classes_of(lanes)}
